@@ -1,6 +1,85 @@
 // ===================== extracted code: src/streams.rs =====================
+//@@ ifdef streams_real
+impl TlsHandshaker {
+/// TLS back end (native-tls / rustls): ASSUMED behaviour, signatures taken from the compiled-in tls module
+//@@ fn src/tls/no_tls_impl.rs impl~TlsHandshaker new mode=external_body stub=1
+//@@ contract
+        ensures hs_flags(&res) == (false, false), hs_roots(&res).len() == 0,
+//@@ end
+//@@ fn src/tls/no_tls_impl.rs impl~TlsHandshaker danger_accept_invalid_certs mode=external_body stub=1
+//@@ contract
+        ensures hs_flags(final(self)) == (_accept_invalid_certs, hs_flags(old(self)).1), hs_roots(final(self)) == hs_roots(old(self)),
+//@@ end
+//@@ fn src/tls/no_tls_impl.rs impl~TlsHandshaker danger_accept_invalid_hostnames mode=external_body stub=1
+//@@ contract
+        ensures hs_flags(final(self)) == (hs_flags(old(self)).0, _accept_invalid_hostnames), hs_roots(final(self)) == hs_roots(old(self)),
+//@@ end
+//@@ fn src/tls/no_tls_impl.rs impl~TlsHandshaker add_root_certificate mode=external_body stub=1
+//@@ contract
+        ensures hs_flags(final(self)) == hs_flags(old(self)), hs_roots(final(self)) == hs_roots(old(self)).push(_cert),
+//@@ end
+//@@ fn src/tls/no_tls_impl.rs impl~TlsHandshaker handshake mode=external_body stub=1
+//@@ contract
+        ensures res matches Ok(t) ==> tls_domain(&t) == _domain@ && tls_flags(&t) == hs_flags(self) && tls_roots(&t) == hs_roots(self) && tls_inner(&t) == _stream,
+//@@ end
+}
+
+//@@ fn src/streams.rs - apply_base_settings props=C14,C16,C12
+//@@ block R8
+for cert in &base_settings.root_certificates.0
+//@@ =>
+{
+    let certs = &base_settings.root_certificates.0;
+    let ghost r0 = hs_roots(handshaker);
+    let mut vp_i: usize = 0;
+    while vp_i < certs.len()
+        invariant
+            vp_i <= certs@.len(), certs == &base_settings.root_certificates.0,
+            hs_flags(handshaker) == (base_settings.accept_invalid_certs, base_settings.accept_invalid_hostnames),
+            hs_roots(handshaker) == r0 + certs@.take(vp_i as int),
+        decreases certs@.len() - vp_i,
+    {
+        let cert = &certs[vp_i];
+@@BODY
+        proof { assert(certs@.take(vp_i as int + 1) =~= certs@.take(vp_i as int).push(certs@[vp_i as int])); }
+        vp_i += 1;
+    }
+    proof { assert(certs@.take(certs@.len() as int) =~= certs@); }
+}
+//@@ rw R1
+cert.clone()
+//@@ =>
+vp_cert_clone(cert)
+//@@ contract
+    ensures
+        hs_flags(final(handshaker)) == (base_settings.accept_invalid_certs, base_settings.accept_invalid_hostnames), // id: handshaker_gets_exactly_this_requests_flags [C14,C16]
+        hs_roots(final(handshaker)) == hs_roots(old(handshaker)) + base_settings.root_certificates.0@, // id: handshaker_gets_exactly_this_requests_roots [C14,C16]
+//@@ end
+
+impl<R: Read + Write> BufReaderWrite<R> {
+//@@ fn src/parsing/buffers.rs impl<R:~Read>~BufReaderWrite<R> new props=C12
+//@@ rw R1
+BufReader::new(inner)
+//@@ =>
+vp_bufreader_new_g(inner)
+//@@ contract
+        ensures bufreader_inner(&res.sp_inner()) == inner, wrote(&res.sp_inner()) == inner.sent(), origin(&res.sp_inner()) == inner.ident(),
+//@@ end
+}
+//@@ endif
+
 impl BaseStream {
 //@@ fn src/streams.rs impl~BaseStream connect props=C08,C10,C12
+//@@ ifdef streams_real
+//@@ closure
+|(stream, timeout)|
+//@@ =>
+|st: (TcpStream, Option<mpsc::Sender<()>>)| -> (r: BaseStream) ensures r == (BaseStream::Plain { stream: st.0, timeout: st.1 }) { let (stream, timeout) = st; @@BODY }
+//@@ rw R1
+info.url.scheme() == "https"
+//@@ =>
+vp_str_eq(info.url.scheme(), "https")
+//@@ endif
 //@@ contract
         ensures
             res matches Ok(s) ==> dialled(&s) == (*info.url, opt_url(info.proxy)), // id: stream_belongs_to_this_url_and_proxy [C08,C10]
@@ -8,4 +87,99 @@ impl BaseStream {
                 url_host(&cu) is Some && url_effective_port(&cu) is Some && tcp_peer(&s) == (url_host(&cu).unwrap(), url_effective_port(&cu).unwrap()) }),
             res matches Ok(s) ==> tunnelled(&s) == (info.proxy is Some && url_scheme_is(info.url, "https")), // id: tunnel_iff_https_via_proxy [C12,C08]
 //@@ end
+
+//@@ ifdef streams_real
+/// sockets, DNS, happy-eyeballs racing and the watchdog thread are outside every unit: contract ASSUMED (remembers its arguments)
+//@@ fn src/streams.rs impl~BaseStream connect_tcp mode=external_body stub=1
+//@@ contract
+        ensures res matches Ok(st) ==> tcp_peer_of(&st.0) == (host_str_of(*host), port) && tcp_info(&st.0) == (*info.url, opt_url(info.proxy)),
+//@@ end
+
+//@@ fn src/streams.rs impl~BaseStream connect_tls props=C14,C08,C12
+//@@ rw R1
+host.to_string()
+//@@ =>
+vp_host_to_string(host)
+//@@ rw R1
+&vp_host_to_string(host)
+//@@ =>
+vp_host_to_string(host).as_str()
+//@@ contract
+        ensures
+            res matches Ok(s) ==> (s matches BaseStream::Tls { stream, .. } // id: direct_tls_verified_against_the_dialled_host_with_this_requests_flags [C14]
+                && tls_domain(&stream) == host_str_of(*host)
+                && tls_flags(&stream) == (info.base_settings.accept_invalid_certs, info.base_settings.accept_invalid_hostnames)
+                && tls_roots(&stream) == info.base_settings.root_certificates.0@
+                && tcp_peer_of(&tls_inner(&stream)) == (host_str_of(*host), port) && tcp_info(&tls_inner(&stream)) == (*info.url, opt_url(info.proxy))),
+//@@ end
+
+//@@ fn src/streams.rs impl~BaseStream initiate_tunnel props=C12,C14,C05
+//@@ rw R1
+write!(stream, "CONNECT {remote_host}:{remote_port} HTTP/1.1\r\n")
+//@@ =>
+vp_write_connect_line(&mut stream, remote_host, remote_port)
+//@@ rw R1
+write!(stream, "Host: {proxy_host}:{proxy_port}\r\n")
+//@@ =>
+vp_write_connect_host(&mut stream, proxy_host, proxy_port)
+//@@ rw R1
+write!(stream, "Connection: close\r\n")
+//@@ =>
+vp_write_connect_close(&mut stream)
+//@@ rw R1
+format!("{username}:{password}")
+//@@ =>
+vp_format_user_pass(username, password)
+//@@ rw R1
+format!("{username}:")
+//@@ =>
+vp_format_user(username)
+//@@ rw R1
+base64::engine::general_purpose::STANDARD.encode(auth)
+//@@ =>
+vp_base64_standard(auth)
+//@@ rw R1
+write!(stream, "Proxy-Authorization: Basic {basic_auth}\r\n")
+//@@ =>
+vp_write_proxy_auth(&mut stream, basic_auth.as_str())
+//@@ rw R1
+write!(stream, "\r\n")
+//@@ =>
+vp_write_crlf(&mut stream)
+//@@ rw R1
+parse_response_head(&mut stream,
+//@@ =>
+parse_response_head(vp_brw_deref_mut(&mut stream),
+//@@ method R1
+take.read_to_end
+//@@ =>
+vp_take_read_to_end(&mut @@RECV, @@ARGS1, @@ARGS)
+//@@ splice before
+let remote_host =
+//@@ with
+        broadcast use axiom_conn_id;
+        let ghost sent0 = stream.sent();
+        let ghost stream0 = stream;
+//@@ splice before_stmt
+BufReaderWrite::new(
+//@@ with
+        proof { assert(stream.sent() =~= sent0 + connect_head(remote_url, proxy_url)); } // id: exactly_one_connect_head_written_before_the_proxy_answers [C12]
+//@@ splice before
+let err = ErrorKind::ConnectError {
+//@@ with
+            proof { assert(buf@.len() <= 10240 && !(200 <= status_u16(status) < 300)); } // id: refusal_carries_this_status_and_at_most_10k_of_body [C12,C05]
+//@@ splice before_stmt
+TlsHandshaker::new()
+//@@ with
+        proof { assert(200 <= status_u16(status) < 300); } // id: tls_starts_only_after_a_2xx_head_was_read [C12]
+//@@ contract
+        ensures
+            res matches Ok(s) ==> (s matches BaseStream::Tunnel { stream: t } // id: tunnel_tls_is_for_the_origin_with_this_requests_flags_and_nothing_else_went_out_in_clear [C12,C14]
+                && Some(tls_domain(&*t)) == url_host(remote_url)
+                && tls_flags(&*t) == (base_settings.accept_invalid_certs, base_settings.accept_invalid_hostnames)
+                && tls_roots(&*t) == base_settings.root_certificates.0@
+                && wrote(&tls_inner(&*t).sp_inner()) == stream.sent() + connect_head(remote_url, proxy_url)),
+            res matches Ok(s) ==> s.dialled() == stream.dialled() && s.tcp_peer() == stream.tcp_peer(), // id: tunnel_runs_over_the_proxy_connection_handed_in [C08,C12]
+//@@ end
+//@@ endif
 }
